@@ -3,6 +3,7 @@ package main
 import (
 	"fmt"
 	"math"
+	"math/big"
 	"regexp"
 	"strconv"
 	"strings"
@@ -24,6 +25,15 @@ func vSpan(d time.Duration) *variants.Variant {
 	return variants.VariantFromTimeSpan(d)
 }
 func vTime(t time.Time) *variants.Variant { return variants.VariantFromDateTime(t) }
+
+// encTime prints the seconds a time.Time stores (seconds since year 1, an int64 that wraps for time.Unix
+// arguments within 62135596800 of 2^63) minus the Unix offset, as a mathematical integer.
+func encTime(t time.Time) string {
+	internal := t.Unix() + 62135596800
+	s := new(big.Int).Sub(big.NewInt(internal), big.NewInt(62135596800))
+	return fmt.Sprintf("t%s.%d", s.String(), t.Nanosecond())
+}
+
 func vArr(es ...*variants.Variant) *variants.Variant {
 	return variants.VariantFromArray(es)
 }
@@ -66,25 +76,63 @@ var binOpsV = []struct {
 	name string
 	f    binFn
 }{
-	{"add", func(o variants.IVariantOperations, a, b *variants.Variant) (*variants.Variant, error) { return o.Add(a, b) }},
-	{"sub", func(o variants.IVariantOperations, a, b *variants.Variant) (*variants.Variant, error) { return o.Sub(a, b) }},
-	{"mul", func(o variants.IVariantOperations, a, b *variants.Variant) (*variants.Variant, error) { return o.Mul(a, b) }},
-	{"div", func(o variants.IVariantOperations, a, b *variants.Variant) (*variants.Variant, error) { return o.Div(a, b) }},
-	{"mod", func(o variants.IVariantOperations, a, b *variants.Variant) (*variants.Variant, error) { return o.Mod(a, b) }},
-	{"pow", func(o variants.IVariantOperations, a, b *variants.Variant) (*variants.Variant, error) { return o.Pow(a, b) }},
-	{"and", func(o variants.IVariantOperations, a, b *variants.Variant) (*variants.Variant, error) { return o.And(a, b) }},
-	{"or", func(o variants.IVariantOperations, a, b *variants.Variant) (*variants.Variant, error) { return o.Or(a, b) }},
-	{"xor", func(o variants.IVariantOperations, a, b *variants.Variant) (*variants.Variant, error) { return o.Xor(a, b) }},
-	{"lsh", func(o variants.IVariantOperations, a, b *variants.Variant) (*variants.Variant, error) { return o.Lsh(a, b) }},
-	{"rsh", func(o variants.IVariantOperations, a, b *variants.Variant) (*variants.Variant, error) { return o.Rsh(a, b) }},
-	{"equal", func(o variants.IVariantOperations, a, b *variants.Variant) (*variants.Variant, error) { return o.Equal(a, b) }},
-	{"notEqual", func(o variants.IVariantOperations, a, b *variants.Variant) (*variants.Variant, error) { return o.NotEqual(a, b) }},
-	{"more", func(o variants.IVariantOperations, a, b *variants.Variant) (*variants.Variant, error) { return o.More(a, b) }},
-	{"less", func(o variants.IVariantOperations, a, b *variants.Variant) (*variants.Variant, error) { return o.Less(a, b) }},
-	{"moreEqual", func(o variants.IVariantOperations, a, b *variants.Variant) (*variants.Variant, error) { return o.MoreEqual(a, b) }},
-	{"lessEqual", func(o variants.IVariantOperations, a, b *variants.Variant) (*variants.Variant, error) { return o.LessEqual(a, b) }},
-	{"in", func(o variants.IVariantOperations, a, b *variants.Variant) (*variants.Variant, error) { return o.In(a, b) }},
-	{"getElement", func(o variants.IVariantOperations, a, b *variants.Variant) (*variants.Variant, error) { return o.GetElement(a, b) }},
+	{"add", func(o variants.IVariantOperations, a, b *variants.Variant) (*variants.Variant, error) {
+		return o.Add(a, b)
+	}},
+	{"sub", func(o variants.IVariantOperations, a, b *variants.Variant) (*variants.Variant, error) {
+		return o.Sub(a, b)
+	}},
+	{"mul", func(o variants.IVariantOperations, a, b *variants.Variant) (*variants.Variant, error) {
+		return o.Mul(a, b)
+	}},
+	{"div", func(o variants.IVariantOperations, a, b *variants.Variant) (*variants.Variant, error) {
+		return o.Div(a, b)
+	}},
+	{"mod", func(o variants.IVariantOperations, a, b *variants.Variant) (*variants.Variant, error) {
+		return o.Mod(a, b)
+	}},
+	{"pow", func(o variants.IVariantOperations, a, b *variants.Variant) (*variants.Variant, error) {
+		return o.Pow(a, b)
+	}},
+	{"and", func(o variants.IVariantOperations, a, b *variants.Variant) (*variants.Variant, error) {
+		return o.And(a, b)
+	}},
+	{"or", func(o variants.IVariantOperations, a, b *variants.Variant) (*variants.Variant, error) {
+		return o.Or(a, b)
+	}},
+	{"xor", func(o variants.IVariantOperations, a, b *variants.Variant) (*variants.Variant, error) {
+		return o.Xor(a, b)
+	}},
+	{"lsh", func(o variants.IVariantOperations, a, b *variants.Variant) (*variants.Variant, error) {
+		return o.Lsh(a, b)
+	}},
+	{"rsh", func(o variants.IVariantOperations, a, b *variants.Variant) (*variants.Variant, error) {
+		return o.Rsh(a, b)
+	}},
+	{"equal", func(o variants.IVariantOperations, a, b *variants.Variant) (*variants.Variant, error) {
+		return o.Equal(a, b)
+	}},
+	{"notEqual", func(o variants.IVariantOperations, a, b *variants.Variant) (*variants.Variant, error) {
+		return o.NotEqual(a, b)
+	}},
+	{"more", func(o variants.IVariantOperations, a, b *variants.Variant) (*variants.Variant, error) {
+		return o.More(a, b)
+	}},
+	{"less", func(o variants.IVariantOperations, a, b *variants.Variant) (*variants.Variant, error) {
+		return o.Less(a, b)
+	}},
+	{"moreEqual", func(o variants.IVariantOperations, a, b *variants.Variant) (*variants.Variant, error) {
+		return o.MoreEqual(a, b)
+	}},
+	{"lessEqual", func(o variants.IVariantOperations, a, b *variants.Variant) (*variants.Variant, error) {
+		return o.LessEqual(a, b)
+	}},
+	{"in", func(o variants.IVariantOperations, a, b *variants.Variant) (*variants.Variant, error) {
+		return o.In(a, b)
+	}},
+	{"getElement", func(o variants.IVariantOperations, a, b *variants.Variant) (*variants.Variant, error) {
+		return o.GetElement(a, b)
+	}},
 }
 
 func mgrOf(m string) variants.IVariantOperations {
@@ -344,8 +392,9 @@ func decVariant(s string) *variants.Variant {
 		return vSpan(time.Duration(n))
 	case 't':
 		p := strings.Split(s[1:], ".")
-		sec, _ := strconv.ParseInt(p[0], 10, 64)
+		bs, _ := new(big.Int).SetString(p[0], 10)
 		ns, _ := strconv.ParseInt(p[1], 10, 64)
+		sec := int64(new(big.Int).And(bs, new(big.Int).SetUint64(math.MaxUint64)).Uint64())
 		return vTime(time.Unix(sec, ns))
 	case 'a':
 		inner := s[2 : len(s)-1]
